@@ -23,6 +23,7 @@ MANIFEST = {
 
 POOL1 = ['', 'a', ' ', '{}']      # incl. a whitespace-only value: an ordinary level, not the empty-string symbol
 POOL2 = ['', 'a', 'b']
+POOL_NONE = [None, 'a', '']      # an absent cell (what the VW parser reports for a namespace missing from a line) next to a value and an empty string
 BOUNDS = {'quick': [(4, 1), (3, 2)], 'thorough': [(5, 1), (4, 2)]}
 MISS = [',{}', 'a', 'a,a', ',{},']      # the symbol SET is given as a comma-separated list: a symbol may be named more than once
 
@@ -118,7 +119,7 @@ def oracle(rows, cols, cuts, thr, miss):
             exp['cov'][c].append(100.0 * (1 - nm / len(part)))
     for j, c in enumerate(cols):
         vals = [r[j] for r in rows]
-        exp['card'][c] = len({v for v in vals if v != ''})
+        exp['card'][c] = len({v for v in vals if v != '' and v is not None})      # an absent cell is not a value
         exp['hist'][c] = dict(Counter(vals))
         for v, n in Counter(vals).items():
             if n <= thr:
@@ -161,6 +162,7 @@ def jobs(tier):
     import pandas  # noqa
     real()
     out = []
+    out.append({'cond': 'stats', 'rows': 3, 'cols': 1, 'none': True, 'pins': {'miss': 0}, 'weight': 30, 'label': f'3x1 with absent cells, values from {POOL_NONE}'})
     for r, c in BOUNDS[tier]:
         pool = POOL1 if c == 1 else POOL2
         for pins in hutil.product_pins([('c0', range(len(pool))), ('c1', range(len(pool)))]):
@@ -171,7 +173,7 @@ def jobs(tier):
 
 def run_job(job):
     R, C = job['rows'], job['cols']
-    pool = POOL1 if C == 1 else POOL2
+    pool = POOL_NONE if job.get('none') else (POOL1 if C == 1 else POOL2)
     cols = ['fa', 'fb'][:C]
     comps = compositions(R)
     cr, cu = real()
